@@ -6,7 +6,8 @@ Driver ops of property C09 (output backends, `LaTeXParser`, `Text.from_latex`).
              spec = the string of pairs the tree denotes, its plain text, the token-level rendering (latex, markdown)
                     with the verdict of the token reader, and the spec *readers* applied to `observed` (the text the
                     real backend produced): `htmlChars`, `Md.unescape`-free checks, brace depth
-  fromlatex  {"value": v, "decoded": codecs.decode(v, 'ulatex') as computed by the real codec, "observed": text|null}
+  fromlatex  {"value": v, "decoded": codecs.decode(v, 'ulatex') as computed by the real codec, "observed": text|null,
+              "brief": true = do not return the tree (deeply nested values)}
              out  = {"tree": normal-form tree, "latex": its rendering with the LaTeX backend} | {"error": [lineno, pos]}
              spec = where the decoded value stops being balanced, its depth sequence, the depth sequence of `observed`
   document   {"entries": [{"key", "label", "tree"}], "backend", "preamble", "encoding", "php_extra"}
@@ -142,13 +143,14 @@ def fromlatex (j : Json) : Except String Json := do
   let v ← getStr j "value"
   let d ← getStr j "decoded"
   let observed ← optStr j "observed"
+  let brief ← C08.optBool j "brief"
   let r := fromLatex (fun _ => d) v
   let out : Json := match r with
     | .error (.unbalanced ln pos) => obj [("error", arr [nat ln, nat pos])]
-    | .ok t => obj [("tree", C08.treeJ t),
-        ("latex", match RT.render (latex encode) t with
+    | .ok t => obj ((if brief == some true then [] else [("tree", C08.treeJ t)]) ++
+        [("latex", match RT.render (latex encode) t with
           | none => Json.str "KeyError"
-          | some s => strToJson s)]
+          | some s => strToJson s)])
   let at_ := Tex.unbalancedAt d
   let transparent := d.all fun c => c == '{' || c == '}' || (Latex.encodeChar c == ([c], false))
   pure (obj [("out", out),
